@@ -81,6 +81,7 @@ Proof.
   intros sp e o sp' H. unfold spec_step in H. destruct (has_panic o); [discriminate|]. destruct e; simpl.
   - destruct (is_nil o); [|discriminate]. inversion H. reflexivity.
   - destruct (is_nil nm && is_none dig); destruct (obs_is o _); try discriminate; inversion H; reflexivity.
+  - destruct (obs_is o _); [|discriminate]. destruct (is_nil nm && is_none dig); inversion H; reflexivity.
   - destruct (check_data_cbs _ _ _ _); [|discriminate]. destruct (find _ _); [discriminate|]. inversion H. reflexivity.
   - destruct (check_nack_cbs _ _ _ _ _); [|discriminate]. inversion H. reflexivity.
   - destruct (check_timeout_cbs _ _ _); [|discriminate]. inversion H. reflexivity.
@@ -203,6 +204,7 @@ Proof.
   destruct e; simpl; try (exists []; rewrite app_nil_r; split; [|exact T]).
   - destruct (is_nil o); [|discriminate]. inversion H. reflexivity.
   - destruct (is_nil nm && is_none dig); destruct (obs_is o _); try discriminate; inversion H; reflexivity.
+  - destruct (obs_is o _); [|discriminate]. destruct (is_nil nm && is_none dig); inversion H; reflexivity.
   - destruct (check_data_cbs _ _ _ _); [|discriminate]. destruct (find _ _); [discriminate|]. inversion H. reflexivity.
   - destruct (check_nack_cbs _ _ _ _ _); [|discriminate]. inversion H. reflexivity.
   - destruct (check_timeout_cbs _ _ _); [|discriminate]. inversion H. reflexivity.
